@@ -23,9 +23,9 @@ CONFIGS = [
          log=[("f", ()), ("g", (3,))], fmt=".10e", sep="\t", ext=".txt", size=(1.0, 1.0, 1.0)),
     dict(grid=(5, 2, 0), vecs=[("u", "point2"), ("rho", "cell1"), ("s", "cell3"), ("bad", "neither")], overwrite=True, scale=2.0,
          log=[("f", ()), ("m", (2, 2))], fmt=".4f", sep=";", ext=".csv", size=(0.5, 2.0, 1.0)),
-    dict(grid=(3, 3, 0), vecs=[("ub", "pointblock"), ("xb", "cellblock")], overwrite=False, scale=1.0,
+    dict(grid=(3, 3, 0), vecs=[("ub", "pointblock"), ("xb", "cellblock"), ("ut", "pointblockT")], overwrite=False, scale=1.0,
          log=[("a", (2,)), ("b", ())], fmt="e", sep=" ", ext=".log", size=(1.0, 1.0, 1.0)),
-    dict(grid=(2, 2, 2), vecs=[("u3", "point3"), ("rho", "cell1"), ("xt", "cellblockT"), ("T", "point1")], overwrite=False, scale=0.5,
+    dict(grid=(2, 2, 2), vecs=[("u3", "point3"), ("rho", "cell1"), ("xt", "cellblockT"), ("T", "point1"), ("w", "point3blockT")], overwrite=False, scale=0.5,
          log=[("f", ())], fmt=".6g", sep=",", ext=".txt", size=(1.0, 2.0, 0.5)),
     dict(grid=(3, 1, 1), vecs=[("p2", "point2"), ("c3", "cell3")], overwrite=True, scale=1.0,
          log=[("v", (4,))], fmt=".3e", sep="\t", ext=".tsv", size=(1.0, 1.0, 1.0)),
@@ -44,7 +44,7 @@ def datum(it, v, idx):
 
 def shape_of(kind, nel, nn):
     return {"cell1": (nel,), "cell3": (3 * nel,), "point1": (nn,), "point2": (2 * nn,), "point3": (3 * nn,), "cellblock": (2, nel),
-            "cellblockT": (nel, 3), "pointblock": (2, 2 * nn), "neither": (nel * nn + 1,)}[kind]
+            "cellblockT": (nel, 3), "pointblock": (2, 2 * nn), "pointblockT": (2 * nn, 3), "point3blockT": (3 * nn, 2), "neither": (nel * nn + 1,)}[kind]
 
 
 def decode_vti(path):
